@@ -32,7 +32,10 @@ class ThreadedInputSplit : public InputSplit {
       : buffer_size_(InputSplitBase::kBufferSize),
         batch_size_(batch_size),
         base_(base),
-        tmp_chunk_(NULL) {
+        tmp_chunk_(NULL),
+        reset_pending_(false),
+        reset_part_index_(0),
+        reset_num_parts_(1) {
     iter_.set_max_capacity(2);
     // initalize the iterator
     iter_.Init(
@@ -42,7 +45,14 @@ class ThreadedInputSplit : public InputSplit {
           }
           return base_->NextBatchEx(*dptr, batch_size_);
         },
-        [base]() { base->BeforeFirst(); });
+        [this]() {
+          // the base split belongs to this (prefetch) thread: a pending ResetPartition is applied here
+          if (reset_pending_) {
+            reset_pending_ = false;
+            base_->ResetPartition(reset_part_index_, reset_num_parts_);
+          }
+          base_->BeforeFirst();
+        });
   }
   // destructor
   virtual ~ThreadedInputSplit(void) {
@@ -95,7 +105,11 @@ class ThreadedInputSplit : public InputSplit {
   }
 
   virtual void ResetPartition(unsigned part_index, unsigned num_parts) {
-    base_->ResetPartition(part_index, num_parts);
+    // hand the request to the prefetch thread (it may be inside base_->NextBatchEx right now);
+    // iter_.BeforeFirst() synchronizes with the rewind callback that carries it out
+    reset_part_index_ = part_index;
+    reset_num_parts_ = num_parts;
+    reset_pending_ = true;
     this->BeforeFirst();
   }
 
@@ -110,6 +124,10 @@ class ThreadedInputSplit : public InputSplit {
   ThreadedIter<InputSplitBase::Chunk> iter_;
   /*! \brief current chunk of data */
   InputSplitBase::Chunk *tmp_chunk_;
+  /*! \brief ResetPartition request waiting for the prefetch thread's next rewind */
+  bool reset_pending_;
+  unsigned reset_part_index_;
+  unsigned reset_num_parts_;
 };
 }  // namespace io
 }  // namespace dmlc
